@@ -20,6 +20,17 @@ def plain_row(rng, row, n):
     return {"row": row, "indent": 0, "tab": 0, "italic_pac": False, "items": [("c", ch) for ch in text]}, text
 
 
+def styled_row(rng, row, n):
+    """a row of n displayable columns that contains mid-row style codes (each occupies one blank column)"""
+    items = []; text = ""
+    k = 0
+    while len(text) < n:
+        if k and rng.random() < 0.25 and len(text) + 2 <= n:
+            items.append(("mid", rng.random() < 0.5)); text += " "
+        ch = rng.choice(sccgen.SAFE_CHARS[:62]); items.append(("c", ch)); text += ch; k += 1
+    return {"row": row, "indent": 0, "tab": 0, "italic_pac": False, "items": items}, text
+
+
 def popon_text(rows_per_cap, doubled=False, df=False):
     lines = ["Scenarist_SCC V1.0", ""]
     frame = 30
@@ -61,7 +72,7 @@ def explore(chk):
                     n = rng.choice([0, 1, 10, 31, 32, 33, 34, 40, 20])
                     if n == 0:
                         continue
-                    row, t = plain_row(rng, r, n); rows.append(row); texts.append(t)
+                    row, t = (styled_row if rng.random() < 0.35 else plain_row)(rng, r, n); rows.append(row); texts.append(t)
                     r += rng.choice([1, 1, 2, 3])
                     if r > 15:
                         break
